@@ -589,10 +589,12 @@ func (w *worker) fieldDataset(idx int) {
 			}
 			everything := fc.match == "" || fc.match == "*"
 			switch {
+			case (c.name == "SCAN" || c.name == "SEARCH") && len(fc.filt) == 0 && everything && fc.limited:
+				// the COUNT shortcut answers from the collection counters and never looks at LIMIT
+				key = "count:shortcut-ignores-limit"
 			case c.name == "SEARCH" && !hasWhere && everything:
+				// the SEARCH COUNT shortcut counted geometries and skipped WHEREIN/WHEREEVAL
 				key = "count:search-shortcut"
-			case c.name == "SCAN" && len(fc.filt) == 0 && everything && fc.limited:
-				key = "count:scan-shortcut-ignores-limit"
 			}
 			w.violation(key, fmt.Sprintf("%s replies %s but %s lists %d ids", q(cntCmd), cr.String(), q(idsCmd), len(got)),
 				replay(map[string]any{"count_query": cntCmd, "count_reply": cr.String(), "ids_query": idsCmd, "ids_reply": got}))
